@@ -169,7 +169,7 @@ func c02Malformed(c *mon.Ctx, A *signedTok, name string, pk crypto.PublicKey) {
 }
 
 func runC02(c *mon.Ctx) {
-	c.Rule("for each of ES256/384/512, EdDSA, PS256/384/512 with fresh keys x valid claims-sets of both profiles and a P2 extension, the token produced by the real ValidateAndSign is (1) accepted unmodified under the signer's key (positive control), then attacked - each mutant once through a fresh DecodeEvidenceFromCOSE and once through ONE REUSED Evidence object that has just decoded and verified the original token - with: every single-bit flip; every truncation; 1-8 trailing bytes; splices of protected/payload/signature between two tokens (same key/other payload, other key, other algorithm); signature := random bytes (same / other length), zeros, empty, signature of another message; 2-8 random byte substitutions, random insertions and deletions; algorithm moved to the unprotected header with a signature that is valid for that layout; empty protected header; protected header without label 1; nil payload with a signature valid over the empty payload; the protected header re-serialised into other bytes of the same meaning (non-minimal label / value / map head, indefinite map, extra label, tag) with the original payload and signature; and verification under every other key (same algorithm, other curve/type, nil, non-key values) and under malformed key objects of the right Go type (empty / short / long Ed25519 key, zero-value and nil ECDSA / RSA keys; a panic below the library is counted, a nil error is a violation). Oracle: decode+Verify may only succeed if the independent reader finds payload, protected-header content and signature byte-identical to the signed token and the key is the signer's (NO-VERDICT, counted), or if the independent stdlib verifier itself finds the signature valid for that content and key; Verify must never succeed without protected alg / payload / signature. distinct_nontrivial = distinct (algorithm, profile, mutation class, position bucket) signatures")
+	c.Rule("for each of ES256/384/512, EdDSA, PS256/384/512 with fresh keys x valid claims-sets of both profiles and a P2 extension, the token produced by the real ValidateAndSign is (1) accepted unmodified under the signer's key (positive control), then attacked - each mutant once through a fresh DecodeEvidenceFromCOSE and once through ONE REUSED Evidence object that has just decoded and verified the original token - with: every single-bit flip; every truncation; 1-8 trailing bytes; splices of protected/payload/signature between two tokens (same key/other payload, other key, other algorithm); signature := random bytes (same / other length), zeros, empty, signature of another message; 2-8 random byte substitutions, random insertions and deletions; algorithm moved to the unprotected header with a signature that is valid for that layout; empty protected header; protected header without label 1; nil payload with a signature valid over the empty payload; signature := well-formed DER ECDSA signatures (of nothing, of random integers, of another message); the payload re-serialised into other bytes of the same meaning (tags in front, non-minimal / indefinite map head, other key order, extra unknown key, bstr-wrapped) with the original protected header and signature; the protected header re-serialised into other bytes of the same meaning (non-minimal label / value / map head, indefinite map, extra label, tag) with the original payload and signature; and verification under every other key (same algorithm, other curve/type, nil, non-key values) and under malformed key objects of the right Go type (empty / short / long Ed25519 key, zero-value and nil ECDSA / RSA keys; a panic below the library is counted, a nil error is a violation). Oracle: decode+Verify may only succeed if the independent reader finds payload, protected-header content and signature byte-identical to the signed token and the key is the signer's (NO-VERDICT, counted), or if the independent stdlib verifier itself finds the signature valid for that content and key; Verify must never succeed without protected alg / payload / signature. distinct_nontrivial = distinct (algorithm, profile, mutation class, position bucket) signatures")
 	if err := extprof.Register(extprof.ExtP2Name); err != nil {
 		c.Violation("harness/register", err.Error(), nil)
 		return
@@ -311,6 +311,59 @@ func runC02(c *mon.Ctx) {
 			c02Judge(c, [...]string{"multi-substitution", "insertion", "deletion"}[kind], A, m, k.Pub, true, nil)
 		}
 		c.Sig(base + "|random-edits")
+		// (5b) well-formed DER ECDSA signatures where the raw r||s form is required
+		der := func(r, s []byte) []byte {
+			enc := func(b []byte) []byte {
+				for len(b) > 1 && b[0] == 0 {
+					b = b[1:]
+				}
+				if len(b) == 0 {
+					b = []byte{0}
+				}
+				if b[0]&0x80 != 0 {
+					b = append([]byte{0}, b...)
+				}
+				return append([]byte{0x02, byte(len(b))}, b...)
+			}
+			body := append(enc(r), enc(s)...)
+			if len(body) < 128 {
+				return append([]byte{0x30, byte(len(body))}, body...)
+			}
+			return append([]byte{0x30, 0x81, byte(len(body))}, body...)
+		}
+		half := len(B.env.Signature) / 2
+		for di, sg := range [][]byte{der([]byte{1}, []byte{1}), der(g.Bytes(32), g.Bytes(32)), der(B.env.Signature[:half], B.env.Signature[half:]), der(g.Bytes(20), g.Bytes(21)), {0x30, 0x00}, {0x30, 0x06, 0x02, 0x01, 0x01, 0x02, 0x01, 0x01}} {
+			c02Judge(c, "signature-replaced:der", A, sign1Bytes(A.env.ProtectedBS, nil, A.env.Payload, sg), k.Pub, true, map[string]any{"variant": di})
+		}
+		c.Sig(base + "|signature-der")
+		// (5c) the PAYLOAD re-serialised into other bytes (tags in front, non-minimal
+		// map head, indefinite map, other key order, an extra unknown key), original
+		// protected header and signature: the signature covers the original bytes
+		if pm, perr := refcbor.DecodeAll(A.env.Payload); perr == nil && pm.K == refcbor.Map && len(pm.Items) >= 4 {
+			rev := refcbor.MapOf()
+			for q := len(pm.Items) - 2; q >= 0; q -= 2 {
+				rev.Items = append(rev.Items, pm.Items[q], pm.Items[q+1])
+			}
+			extra := refcbor.MapOf(append(append([]*refcbor.Node{}, pm.Items...), refcbor.I(7777), refcbor.U(1))...)
+			pays := []struct {
+				name string
+				b    []byte
+			}{
+				{"tag-61-prefix", append([]byte{0xd8, 0x3d}, A.env.Payload...)},
+				{"tag-1-prefix", append([]byte{0xc1}, A.env.Payload...)},
+				{"self-described-prefix", append([]byte{0xd9, 0xd9, 0xf7}, A.env.Payload...)},
+				{"two-tags-prefix", append([]byte{0xc1, 0xd8, 0x3d}, A.env.Payload...)},
+				{"map-head-non-minimal", refcbor.Encode(pm.WithArgW(2))},
+				{"map-indefinite", refcbor.Encode(pm.AsIndef())},
+				{"key-order-reversed", refcbor.Encode(rev)},
+				{"extra-unknown-key", refcbor.Encode(extra)},
+				{"bstr-wrapped", refcbor.Encode(refcbor.Bstr(A.env.Payload))},
+			}
+			for _, pv := range pays {
+				c02Judge(c, "payload-reserialised:"+pv.name, A, sign1Bytes(A.env.ProtectedBS, nil, pv.b, A.env.Signature), k.Pub, true, nil)
+				c.Sig(base + "|payload-reserialised|" + pv.name)
+			}
+		}
 		// (7) envelopes whose signature is *valid for the wrong layout*: a
 		// verifier that looked in the wrong place would accept them.
 		signOver := func(protectedBS, payload []byte) []byte {
